@@ -284,6 +284,14 @@ impl GraphInline {
                     .map(|inline| inline.normalize(context))
                     .collect(),
             ),
+            GraphInline::Image(url, title, inlines) => GraphInline::Image(
+                url.clone(),
+                title.clone(),
+                inlines
+                    .iter()
+                    .map(|inline| inline.normalize(context))
+                    .collect(),
+            ),
             GraphInline::Link(url, title, link_type, inlines) => {
                 if self.is_ref() {
                     let new_inlines = match *link_type {
@@ -340,6 +348,14 @@ impl GraphInline {
             ),
             GraphInline::SmallCaps(emph) => GraphInline::SmallCaps(
                 emph.iter()
+                    .map(|inline| inline.change_key(target_key, updated_key))
+                    .collect(),
+            ),
+            GraphInline::Image(url, title, inlines) => GraphInline::Image(
+                url.clone(),
+                title.clone(),
+                inlines
+                    .iter()
                     .map(|inline| inline.change_key(target_key, updated_key))
                     .collect(),
             ),
